@@ -324,7 +324,7 @@ func (prop) Generate(rng *rand.Rand, tier string) []corr.Case {
 			reset = "reset pebble"
 		}
 		s := newSim(rng, style, reset)
-		s.noUpdate = style == 2 || style == 4 // duplicate leaves without updates; style 1: with updates
+		s.noUpdate = s.dups // long walks with duplicate leaves do not update (see the short walk below)
 		for n := 0; n <= walkMax; n++ {
 			density := 2
 			if n > 400 {
@@ -340,6 +340,18 @@ func (prop) Generate(rng *rand.Rand, tier string) []corr.Case {
 		s.add("reload")
 		s.add("nodes")
 		cases = append(cases, corr.Case{Ops: s.ops, Tag: fmt.Sprintf("walk-style%d", style)})
+	}
+	// a short walk with duplicate leaves and updates (the hash -> location index is single-valued: the
+	// known finding proof-index-stale-duplicate-leaf shows up here and in the *-dup-update cases)
+	{
+		s := newSim(rng, 1, "reset")
+		for n := 0; n <= 120; n++ {
+			s.opsAt(2)
+			s.appendOne()
+		}
+		s.add("batchroot")
+		s.add("nodes")
+		cases = append(cases, corr.Case{Ops: s.ops, Tag: "walk-dup-update"})
 	}
 	// one append-only walk: predicted = actual and incremental = batch at every single size
 	{
@@ -422,7 +434,7 @@ func (prop) Generate(rng *rand.Rand, tier string) []corr.Case {
 			mod = 1 + rng.Intn(6)
 		}
 		s.dups = s.dups || mod > 0
-		s.noUpdate = s.dups && rng.Intn(2) == 0
+		s.noUpdate = s.dups && rng.Intn(4) != 0
 		seed := []byte{byte(rng.Intn(256)), byte(rng.Intn(256))}
 		chunks := 1 + rng.Intn(3)
 		done := 0
